@@ -191,6 +191,11 @@ E("display-write-str", "src/literal.rs",
 E("range-gate-checked-sub", "src/literal.rs",
   """                    && ty_max.is_none_or(|ty_max| max.saturating_sub(1) <= ty_max)""",
   """                    && ty_max.is_none_or(|ty_max| max.checked_sub(1).unwrap_or(0) <= ty_max)""", "checked_sub(..).unwrap_or(0) for saturating_sub")
+E("mux-envs-outermost-scope-copied", "src/circuit.rs",
+  """        let mut muxed = Env(vec![]);
+        for (a, b) in a.0.iter().zip(b.0.iter()) {""",
+  """        let mut muxed = a.outermost_scope();
+        for (a, b) in a.0.iter().zip(b.0.iter()).skip(1) {""", "the outermost scope only holds consts on this tree (first half of seed C14-n)")
 # ---------------------------------------------------------------- env.rs
 E("env-get-find-map", "src/env.rs",
   """        for bindings in self.0.iter().rev() {
